@@ -5,3 +5,76 @@ package main
 
 //@ func LoadHIDIConfig
 //@   safety [C09]
+
+// ---- C18 (partial): start-up upkeep never opens anything for writing outside the factory tree and the blacklist.
+// Frame clause only: every OS call that can create or change something (OpenFile with a write flag, Mkdir) is a call-site
+// obligation on its path argument, for every state of the file system (all OS calls are arbitrary). Restoration and
+// idempotence are not decided (they need an axiomatised file system).
+
+// ghost file system (see contracts/extern.hvc): existence and abstract content per path
+//@ ghost var fsExists set[string]
+//@ ghost var fsData fun[string]int
+//@ spec fn pathOf(h Ref) string
+//@ spec fn blob(b []byte) int
+//@ spec fn tmplBlob(name string) int
+//@ spec fn overlay(old int, new int) int
+//@ spec fn inWalk(root string, q string, d fs.DirEntry) bool
+//@ pred isDirEntry(d fs.DirEntry) := ext("(fs.DirEntry).IsDir", d, "bool")
+//@ pred underFactory(p string) := ext("strings.HasPrefix", p, "hidi-config/factory", "bool")
+//@ pred underConfig(p string) := ext("strings.HasPrefix", p, "hidi-config", "bool")
+// what the walk is assumed to visit lies inside its root; the blacklist is not inside the factory tree
+//@ axiom C18_walk_inside: forall root string, q string, d fs.DirEntry :: inWalk(root, q, d) ==> ext("strings.HasPrefix", q, root, "bool")
+//@ axiom C18_blacklist_outside: !ext("strings.HasPrefix", "hidi-config/device blacklist.txt", "hidi-config/factory", "bool")
+
+// per-entry result of the factory update: the entry exists and, if it is a file, equals its template
+//@ pred restored(p string, d fs.DirEntry) := fsExists[p] && (!isDirEntry(d) ==> fsData[p] == tmplBlob(p))
+// per-entry result of the tree creation
+//@ pred created(p string, d fs.DirEntry) := fsExists[p]
+
+// the callback of the factory update (directory exists)
+//@ func updateHIDIConfiguration$2
+// (the walk is over the embedded template tree, which is compiled in: its roots exist, so entries are never nil)
+//@   requires inWalk("hidi-config/factory", path, entry) && entry != nil
+//@   walkpost [C18] restored(path, entry)
+//@   walkrel [C18] forall q string :: !underFactory(q) ==> (fsExists[q] <==> old(fsExists[q])) && fsData[q] == old(fsData[q])
+//@   walkrel [C18] forall q string :: old(fsExists[q]) ==> fsExists[q]
+//@   walkrel [C18] (forall q string, dq fs.DirEntry :: inWalk("hidi-config/factory", q, dq) ==> old(restored(q, dq))) ==> fsExists == old(fsExists) && fsData == old(fsData)
+//@   ensures [C18] forall q string :: q != path ==> (fsExists[q] <==> old(fsExists[q])) && fsData[q] == old(fsData[q])
+//@   ensures [C18] old(fsExists[path]) ==> fsExists[path]
+//@   ensures [C18] old(restored(path, entry)) ==> fsExists == old(fsExists) && fsData == old(fsData)
+//@   callassert os.OpenFile [C18] flag == 0 || (name == path && underFactory(name))
+//@   callassert os.Mkdir [C18] name == path && underFactory(name)
+//@   modifies fsExists, fsData
+//@   safety [C18]
+
+// the callback of the tree creation (directory did not exist)
+//@ func updateHIDIConfiguration$1
+//@   requires inWalk("hidi-config", path, d) && d != nil
+//@   walkpost [C18] created(path, d)
+//@   walkrel [C18] forall q string :: !underConfig(q) ==> (fsExists[q] <==> old(fsExists[q])) && fsData[q] == old(fsData[q])
+//@   walkrel [C18] forall q string :: old(fsExists[q]) ==> fsExists[q]
+//@   ensures [C18] forall q string :: q != path ==> (fsExists[q] <==> old(fsExists[q])) && fsData[q] == old(fsData[q])
+//@   ensures [C18] old(fsExists[path]) ==> fsExists[path]
+//@   callassert os.OpenFile [C18] name == path && underConfig(name) && flag & 512 == 0
+//@   callassert os.Mkdir [C18] name == path && underConfig(name)
+//@   modifies fsExists, fsData
+//@   safety [C18]
+
+//@ func updateHIDIConfiguration
+//@   let bl := "hidi-config/device blacklist.txt"
+// factory files: after a successful run on an existing directory every template entry below factory/ is present and identical
+//@   ensures [C18] result == nil && old(fsExists["hidi-config"]) ==> (forall q string, dq fs.DirEntry :: inWalk("hidi-config/factory", q, dq) ==> restored(q, dq))
+// tree creation: after a successful run on a missing directory every template entry exists
+//@   ensures [C18] result == nil && !old(fsExists["hidi-config"]) ==> (forall q string, dq fs.DirEntry :: inWalk("hidi-config", q, dq) ==> created(q, dq))
+// the blacklist: an existing one is never written; one that is created holds the template
+//@   ensures [C18] old(fsExists[bl]) && old(fsExists["hidi-config"]) ==> fsData[bl] == old(fsData[bl])
+//@   ensures [C18] result == nil && old(fsExists["hidi-config"]) && !old(fsExists[bl]) && fsExists[bl] ==> fsData[bl] == tmplBlob(bl)
+// nothing is ever deleted, and with the directory present nothing outside factory/ and the blacklist changes
+//@   ensures [C18] forall q string :: old(fsExists[q]) ==> fsExists[q]
+//@   ensures [C18] old(fsExists["hidi-config"]) ==> (forall q string :: !underFactory(q) && q != bl ==> (fsExists[q] <==> old(fsExists[q])) && fsData[q] == old(fsData[q]))
+// running it again changes nothing: when every template entry below factory/ is already restored and the blacklist exists, nothing is written
+//@   ensures [C18] old(fsExists["hidi-config"]) && old(fsExists[bl]) && (forall q string, dq fs.DirEntry :: inWalk("hidi-config/factory", q, dq) ==> old(restored(q, dq))) ==> (forall q string, dq fs.DirEntry :: inWalk("hidi-config/factory", q, dq) ==> fsData[q] == old(fsData[q])) && fsData[bl] == old(fsData[bl])
+//@   callassert os.OpenFile [C18] flag == 0 || (name == "hidi-config/device blacklist.txt" && flag & 512 == 0)
+//@   callassert fs.WalkDir [C18] root == "hidi-config" || root == "hidi-config/factory"
+//@   modifies fsExists, fsData
+//@   safety [C18]
